@@ -187,6 +187,15 @@ def check(ctx, run, rule='R05.15', only=None, floor=None):
                                     a0 = sorted(cc, key=show)[0]
                                     bad.setdefault(('position-length', show(tup[2][1])[:70]), f'the length of a recorded position ({show(tup[2][1])[:60]}) is built from the element count '
                                                                                            f'`{show(a0)[:50]}`; it is read back as a number of bytes ({e[5].get("file")}:{e[5].get("line")})')
+            # a byte length (an entry's `length`) used to count *characters*: `s.chars().skip(start).take(len)`
+            for e in q.calls():
+                last = canon(e[1]).split('::')[-1]
+                if last in ('skip', 'take', 'nth', 'step_by') and len(e[2]) == 2 and any(s_[0] == 'call' and canon(s_[1]).split('::')[-1] in ('chars', 'char_indices') for s_ in subterms(e[2][0])):
+                    n += 1
+                    byte_atoms = [s_ for s_ in subterms(e[2][1]) if s_[0] == 'field' and s_[2] == 'length']
+                    if byte_atoms:
+                        bad.setdefault(('chars', show(e[2][1])[:60]), f'`{last}({show(e[2][1])[:50]})` counts characters of a string with an entry length, which is a number of bytes: the two differ as soon as '
+                                                                      f'a key or string contains a multi-byte character ({e[5].get("file")}:{e[5].get("line")})')
             for c in q.conds:
                 t = c[0]
                 if t[0] == 'bin' and t[1] in ('Lt', 'Le', 'Gt', 'Ge', 'Eq', 'Ne'):
